@@ -19,6 +19,12 @@ inductive Err where
   | bitRead | unknownDescr | path | mdExpr | query | lib | other
   deriving DecidableEq, Repr, Inhabited
 
+instance {ε α : Type} [DecidableEq ε] [DecidableEq α] : DecidableEq (Except ε α)
+  | .ok a, .ok b => if h : a = b then isTrue (by rw [h]) else isFalse (fun h' => h (by cases h'; rfl))
+  | .error a, .error b => if h : a = b then isTrue (by rw [h]) else isFalse (fun h' => h (by cases h'; rfl))
+  | .ok _, .error _ => isFalse (fun h => by cases h)
+  | .error _, .ok _ => isFalse (fun h => by cases h)
+
 def Err.isLib : Err → Bool
   | .other => false
   | _ => true
